@@ -20,6 +20,7 @@ from __future__ import annotations
 import contextlib
 import io
 import math
+import numbers
 import os
 import random
 import re
@@ -42,6 +43,10 @@ KW = dict(kind="bounded", engine="smallscope", backend="runtime-contract")
 # The empty title "" is a title ("every title"): its family lives in its own task/obligations (tag title=empty) so that it cannot mask
 # the other families.  On repo HEAD 01da268 it is a genuine finding (comment setter and _setup_write_file index value[-1]).
 EMPTY_TITLE_FAMILY = True
+# The statement does not speak of re-reading the position format; the two determine_format clauses (reader's position_format == (w, d),
+# determine_format(line) == writer's format) rest on "every position format (width = decimals + 5)" and on the task description only.
+# Set to False to drop them (the re-read VALUES do not depend on the inferred number of decimals).
+CHECK_READER_FORMAT = True
 
 
 # ---------------------------------------------------------------------------
@@ -69,12 +74,14 @@ def bounded_info():
             "concerns atom lines only",
             "B13-b: 'fits the field width' is computed by this module as len(format(x, '{w}.{k}f')) <= w with k = d for coordinates and "
             "k = d+1 for velocities (the GROMACS convention; a value that fits with d+1 decimals also fits with d)",
-            "B13-c: 'their last written decimal' is read off the written file: the number of digits after the '.' in each field; position "
-            "fields must carry exactly d decimals (that is what the position format (w, d) means), velocity fields any number >= 1",
-            "B13-d: the fixed-width column layout (5+5+5+5 columns, then 3 or 6 fields of width w) and the box order "
-            "v1(x) v2(y) v3(z) v1(y) v1(z) v2(x) v2(z) v3(x) v3(y) with one lattice vector per matrix row are the .gro format as documented by "
-            "GROMACS and by the docstrings of extract_lattice_gro/dump_lattice_gro; justification of the name columns is NOT checked "
-            "(names are compared after stripping blanks, which is all the statement asks)",
+            "B13-c: 'their last written decimal' is read off the written file: the number of digits after the '.' in each field (no "
+            "particular number of decimals is demanded of positions, velocities or box entries; justification inside a field is free)",
+            "B13-d: the fixed-width column layout of atom lines (5+5+5+5 columns, then 3 or 6 fields of width w) is the statement's own "
+            "vocabulary ('five columns', 'field width', 'width = decimals + 5') and is demanded of the written file; justification of the name "
+            "columns is NOT checked (names are compared after stripping blanks). Of the box line only 'parses as numbers' is demanded; whether "
+            "it is in the GROMACS component order v1(x) v2(y) v3(z) v1(y) v1(z) v2(x) v2(z) v3(x) v3(y) is recorded as informational in the "
+            "evidence sample, never as a violation (the statement only speaks of reading back with the library). A missing final line "
+            "terminator or a blank tail is not an alarm",
             "B13-e: in the pre-formatted-string family the strings are produced by this module's own C-style formatter in the file's "
             "effective format, without line terminator, with numbers <= 99999 (a caller who pre-formats has already chosen the five columns)",
             "B13-f: float comparison slack on the reader side is one ulp of the re-read value on top of the half unit; the file side is exact "
@@ -375,9 +382,8 @@ def read_session(path):
 # ---------------------------------------------------------------------------
 # independent reading of the bytes
 
-_INT5 = re.compile(r"^ *[0-9]{1,5}$")
-_FLT = re.compile(r"^ *(-?[0-9]+\.([0-9]+))$")
-_BOXTOK = re.compile(r"^-?[0-9]+\.([0-9]+)$")
+_INT5 = re.compile(r"^\s*[0-9]{1,5}\s*$")                   # at most five digits anywhere in the five columns
+_FLT = re.compile(r"^\s*([+-]?[0-9]*\.([0-9]+))\s*$")         # a decimal point and at least one written decimal, any justification
 GRO_BOX_ORDER = [(0, 0), (1, 1), (2, 2), (0, 1), (0, 2), (1, 0), (1, 2), (2, 0), (2, 1)]
 
 
@@ -404,15 +410,31 @@ def indep_atom(line, w, vel):
 
 
 def indep_box(line):
+    """the box line as numbers (any decimal notation, any number of decimals), laid out in the GROMACS component order.
+    Only 'the line parses' is demanded by the contract; the component order is informational (see gro_order_note)."""
     toks = line.split()
-    if len(toks) not in (3, 9):
-        return None, f"box line has {len(toks)} numbers (3 or 9 expected): {line!r}"
+    if len(toks) < 3:
+        return None, f"box line has {len(toks)} numbers (at least 3 expected): {line!r}"
     M = [[Fraction(0)] * 3 for _ in range(3)]
-    for (i, j), t in zip(GRO_BOX_ORDER, toks):
-        if not _BOXTOK.match(t):
-            return None, f"box entry {t!r} is not a fixed-point number: {line!r}"
-        M[i][j] = Fraction(t)
+    for k, t in enumerate(toks):
+        try:
+            v = Fraction(t)
+        except (ValueError, ZeroDivisionError):
+            return None, f"box entry {t!r} is not a number: {line!r}"
+        if k < 9:
+            i, j = GRO_BOX_ORDER[k]
+            M[i][j] = v
     return M, None
+
+
+def gro_order_note(Mi, eb):
+    """informational, never an alarm: does the written line hold the box in the component order of the GROMACS manual?  The statement only
+    speaks of reading back with the library, so a writer/reader pair that agrees on another order still satisfies it."""
+    if Mi is None:
+        return None
+    if all(abs(Mi[i][j] - eb[i][j]) <= BOX_TOL for i in range(3) for j in range(3)):
+        return None
+    return "box line not in the GROMACS component order v1(x) v2(y) v3(z) v1(y) v1(z) v2(x) v2(z) v3(x) v3(y) (informational)"
 
 
 def indep_file(raw, n, w, d, vel):
@@ -420,10 +442,8 @@ def indep_file(raw, n, w, d, vel):
     parts = {"title": None, "count": None, "atom_lines": None, "atoms": None, "box": None}
     probs = []
     blines = raw.split(b"\n")
-    if blines and blines[-1] == b"":
+    while len(blines) > n + 3 and blines[-1].strip() == b"":      # a missing/extra final terminator or blank tail is not an alarm
         blines.pop()
-    else:
-        probs.append(f"file does not end with a line terminator: ...{raw[-30:]!r}")
     lines = []
     for k, bl in enumerate(blines):
         try:
@@ -436,7 +456,7 @@ def indep_file(raw, n, w, d, vel):
     if lines:
         parts["title"] = lines[0]
     if len(lines) > 1:
-        if re.match(r"^ *[0-9]+ *$", lines[1]):
+        if re.match(r"^\s*[0-9]+\s*$", lines[1]):
             parts["count"] = int(lines[1])
             if parts["count"] != n:
                 probs.append(f"count line says {parts['count']}, {n} records were written")
@@ -450,8 +470,6 @@ def indep_file(raw, n, w, d, vel):
             atoms.append(a)
             if p:
                 probs.append(p)
-            elif any(k != d for k in a["decs"][:3]):
-                probs.append(f"position fields carry {a['decs'][:3]} decimals, the position format says {d}: {ln!r}")
         parts["atoms"] = atoms
         parts["box"], p = indep_box(lines[-1])
         if p:
@@ -524,7 +542,7 @@ def compare_records(orig, got, side, d, decs_of):
                 put(C_NAMES, f"record {i}: {what} {o[k]!r} comes back as {g[k]!r}", f"name:{what}")
         for what, k in (("residue number", 0), ("atom number", 3)):
             n, m = o[k], g[k]
-            isint = isinstance(m, int) and not isinstance(m, bool)
+            isint = isinstance(m, numbers.Integral) and not isinstance(m, bool)
             if n <= 99999:
                 if not (isint and m == n):
                     put(C_NUM, f"record {i}: {what} {n} comes back as {m!r}", f"number:{n}->{m!r}")
@@ -592,25 +610,24 @@ def evaluate(case, raw, rd, announced, read_exc=None):
         for c, v in b.items():
             put(c, *v)
     eb = expected_box(case["box"])
-    if parts["box"] is not None:
-        for i in range(3):
-            for j in range(3):
-                if abs(parts["box"][i][j] - eb[i][j]) > BOX_TOL:
-                    put(C_BOX, f"[written file] box[{i}][{j}] = {float(eb[i][j])!r} is written as {float(parts['box'][i][j])!r} "
-                               f"(box line {raw.rstrip(b'\n').split(b'\n')[-1].decode('ascii', 'replace')!r})", f"box[{i}][{j}]")
+    note = gro_order_note(parts["box"], eb)      # the box values are judged through the reader below; the order on disk is informational
+    if note:
+        done["_notes"] = [note]
     et = expected_title(case["title"], announced)
     if parts["title"] is not None and et is not None and parts["title"] != et:
         put(C_TITLE, f"[written file] title {et!r} is written as {parts['title']!r}", "title")
     # ---- (b) what the real reader returns
     if rd is not None:
-        done[C_RFMT] = True
+        done[C_RFMT] = CHECK_READER_FORMAT
         try:
-            ok = rd["natoms"] == n and not isinstance(rd["natoms"], bool)
+            ok = int(rd["natoms"]) == n and rd["natoms"] == n and not isinstance(rd["natoms"], bool)
         except Exception:
             ok = False
         if not ok:
             put(C_COUNT, f"[GroFile(path)] natoms = {rd['natoms']!r}, {n} records were written", "natoms")
         rr = rd["records"]
+        if isinstance(rr, tuple):
+            rr = list(rr)
         if not isinstance(rr, list) or len(rr) != n:
             put(C_COUNT, f"[GroFile(path)] readlines() returns {len(rr) if hasattr(rr, '__len__') else rr!r} records, {n} were written", "readlines-count")
         if isinstance(rr, list):
@@ -704,8 +721,12 @@ class Agg:
         self.keys = set()
         self.nontrivial = 0
         self.sample = None
+        self.notes = {}
 
     def add(self, key, nontrivial, bad, done, cex, sample=None):
+        for nt in done.get("_notes", ()):
+            k = nt.split(":")[0]
+            self.notes.setdefault(k, [0, nt])[0] += 1
         if key not in self.keys:
             self.keys.add(key)
             if nontrivial:
@@ -729,6 +750,8 @@ class Agg:
         smp = None
         if self.sample is not None:
             smp = {k: v for k, v in self.sample.items() if k != "_rank"}
+        if self.notes:
+            smp = dict(smp or {}, informational={k: {"count": v[0], "first": v[1]} for k, v in self.notes.items()})
         for (fn, cl), (n, nbad, first) in self.per.items():
             oid = f"{prop}/{fn}/{cl}/{tag}"
             if n == 0:
@@ -899,14 +922,12 @@ def check_record(rec, fmt, corrupt=None, corrupt_back=None):
         if prob:
             put(R_LINE, prob, "layout")
         else:
-            if any(k != d for k in a["decs"][:3]):
-                put(R_LINE, f"position fields carry {a['decs'][:3]} decimals, the format says {d}: {line!r}", "decimals")
             got = [(a["resid"], a["resname"], a["name"], a["atnum"]) + tuple(a["vals"])]
             b = compare_records([rec], got, "parse_atomlist line", d, lambda i, j: a["decs"][j])
             if b:
                 c0 = sorted(b, key=FILE_CLAUSES.index)[0]
                 put(R_LINE, f"{b[c0][0]} in {line!r}", b[c0][1])
-        done[R_DFMT] = True
+        done[R_DFMT] = CHECK_READER_FORMAT
         try:
             f2 = G.determine_format(line)
             if not (isinstance(f2, dict) and tuple(f2.get("position", ())) == (w, d) and bool(f2.get("velocities")) == vel
@@ -936,7 +957,7 @@ def check_record(rec, fmt, corrupt=None, corrupt_back=None):
                     continue
                 for j, (h, g) in enumerate(zip(held, back)):
                     if j < 4:
-                        ok = (isinstance(g, str) if isinstance(h, str) else isinstance(g, int) and not isinstance(g, bool)) and g == h
+                        ok = (isinstance(g, str) if isinstance(h, str) else isinstance(g, numbers.Integral) and not isinstance(g, bool)) and g == h
                     else:
                         try:
                             ok = abs(_frac(g) - h) <= Fraction(math.ulp(float(g)))
@@ -971,7 +992,7 @@ def task_records(prop, fmt, tier, seed):
 
 
 X_RT = (F_BOX, "ensures.extract_of_dump_equal_to_5e-6")
-X_LINE = (F_BOX, "ensures.dump_writes_gro_box_order_with_5_decimals")
+X_LINE = (F_BOX, "ensures.dump_line_parses_as_numbers")
 X_EXC = (F_BOX, "ensures.no_exception")
 BOX_CLAUSES = [X_EXC, X_RT, X_LINE]
 
@@ -983,35 +1004,32 @@ def check_box(M, corrupt=None):
     bad, done = {}, {c: False for c in BOX_CLAUSES}
     done[X_EXC] = True
     eb = [[Fraction(x) for x in row] for row in M]
+    line = None
     try:
         line = P.dump_lattice_gro(np.array(M, dtype=float))
         if corrupt is not None:
             line = corrupt(line)
-        back = P.extract_lattice_gro(line)
-        back2 = P.extract_lattice_gro(line + "\n")
+        done[X_LINE] = True
+        Mi, prob = indep_box(line)
+        if prob:
+            bad[X_LINE] = (prob, "box-line")
+        back = P.extract_lattice_gro(line if line.endswith("\n") else line + "\n")     # the reader hands over terminated lines
     except Exception as e:
         bad[X_EXC] = (f"dump/extract_lattice_gro({M!r}) raises {type(e).__name__}: {e}", f"box:{type(e).__name__}")
-        return bad, done, None
-    done[X_RT] = done[X_LINE] = True
+        return bad, done, line
+    done[X_RT] = True
     B = np.asarray(back, dtype=float)
-    if B.shape != (3, 3) or not np.array_equal(B, np.asarray(back2, dtype=float)):
-        bad[X_RT] = (f"extract_lattice_gro({line!r}) = {back!r} (shape / terminator dependence)", "box-shape")
+    if B.shape != (3, 3):
+        bad[X_RT] = (f"extract_lattice_gro({line!r}) = {back!r}: not a 3x3 matrix", "box-shape")
     else:
         for i in range(3):
             for j in range(3):
                 if X_RT not in bad and abs(_frac(B[i, j]) - eb[i][j]) > BOX_TOL + Fraction(math.ulp(float(B[i, j]))):
                     bad[X_RT] = (f"extract(dump(M))[{i}][{j}] = {float(B[i, j])!r}, M[{i}][{j}] = {M[i][j]!r}; line {line!r}", f"box[{i}][{j}]")
-    if "\n" in line:
-        bad[X_LINE] = (f"dump_lattice_gro returns a terminated/multi-line string {line!r}", "box-line")
-    else:
-        Mi, prob = indep_box(line)
-        if prob:
-            bad[X_LINE] = (prob, "box-line")
-        else:
-            for i in range(3):
-                for j in range(3):
-                    if X_LINE not in bad and abs(Mi[i][j] - eb[i][j]) > BOX_TOL:
-                        bad[X_LINE] = (f"M[{i}][{j}] = {M[i][j]!r} is written as {float(Mi[i][j])!r} in {line!r} (GROMACS order v1(x) v2(y) v3(z) v1(y) v1(z) v2(x) v2(z) v3(x) v3(y))", f"box[{i}][{j}]")
+    if not prob:
+        note = gro_order_note(Mi, eb)            # informational only
+        if note:
+            done["_notes"] = [note + f": {line!r}"]
     return bad, done, line
 
 
@@ -1116,7 +1134,7 @@ def task_guards(prop, seed):
             (C_COUNT, "count-line-says-1", lambda raw: _sub_line(raw, 1, lambda s: "        1")),
             (C_COUNT, "last-record-dropped", lambda raw: "\n".join(raw.decode().split("\n")[:3] + raw.decode().split("\n")[4:]).replace("        2", "        1", 1).encode()),
             (C_LAYOUT, "count-backfilled-one-byte-late", lambda raw: raw.replace(b"        2\n", b"         2", 1)),
-            (C_LAYOUT, "positions-with-one-decimal-less", lambda raw: _sub_line(raw, 2, lambda s: s[:20] + " " + s[20:27] + s[28:])),
+            (C_LAYOUT, "coordinate-field-not-a-number", lambda raw: _sub_line(raw, 2, lambda s: s[:20] + "   x.000" + s[28:])),
             (C_RFMT, "first-line-reformatted-to-(9,4)-velocities-lost", None),
         ]
         # the uncorrupted base case must hold (otherwise the guards say nothing)
@@ -1197,8 +1215,9 @@ def task_guards(prop, seed):
                           kind="guard", engine="smallscope", backend="runtime-contract", expect="refuted",
                           reason=(bad.get(clause) or ("not caught", ""))[0][:300], sample={"line": line}))
         for clause, name, cor in ((X_RT, "box-entry-off-by-1e-5", lambda s: _bump_last_digit(s, 0, 9)),
-                                  (X_LINE, "box-order-permuted", lambda s: " ".join(s.split()[:3] + s.split()[4:] + s.split()[3:4])),
-                                  (X_LINE, "four-decimals", lambda s: " ".join(t[:-1] for t in s.split()))):
+                                  (X_RT, "box-order-permuted", lambda s: " ".join(s.split()[:3] + s.split()[4:] + s.split()[3:4])),
+                                  (X_RT, "four-decimals-lose-precision", lambda s: " ".join(t[:-1] for t in s.split())),
+                                  (X_LINE, "entry-not-a-number", lambda s: s.replace("2.98765", "2.9876x"))):
             gid = f"{prop}/{F_BOX}/guard.must-fail.{clause[1].split('.', 1)[1]}/{name}"
             try:
                 bad, done, line = check_box(BOXES[4]["value"], corrupt=cor)
